@@ -91,6 +91,8 @@ class World:
         self.rng = rng
         self.q = {"a": queue.Queue(), "b": queue.Queue()}
         self.hold_b = {}  # transmission index of "b" -> seconds to hold it back on the line (None = it never arrives)
+        self.fault_fn = None  # callable(bytes) -> corrupted bytes | None, asked once per block transmission of "a" until it fires
+        self.fault_fired = None
         self.stop = False
         self.threads = []
         if pumped:
@@ -107,6 +109,11 @@ class World:
             f = self.fault
             if f is not None and f[0] == end.name and f[1] == idx and f[2] < len(data):
                 data = data[: f[2]] + bytes([f[3]]) + data[f[2] + 1:]
+            if self.fault_fn is not None and end.name == "a" and len(data) > 1 and self.fault_fired is None:
+                bad = self.fault_fn(data)
+                if bad is not None:
+                    self.fault_fired = (idx, data)
+                    data = bad
             pieces = []
             i = 0
             while i < len(data):
@@ -467,6 +474,108 @@ def show_block_hdr(h) -> str:
     return " ".join(str(int(getattr(h, f))) for f in FIELDS)
 
 
+def run_concurrent_fault(cx, case):
+    """two application threads send multi-block messages on one endpoint; a block of one message arrives with a wrong checksum WHILE THE OTHER
+    MESSAGE IS STILL INCOMPLETE at the receiver.  Oracle: the damaged message's send fails and it is not delivered; the undamaged one -
+    whose send returned True - arrives exactly once, intact."""
+    res, rng = cx.res, cx.rng
+    pair = Pair(rng.fork("concf"), case["chunks"], case["pumped"], 0)
+    try:
+        direction = case["dir"]
+        sender, skey, rkey = (pair.host, "H", "E") if direction == "H2E" else (pair.equip, "E", "H")
+        a_end = pair.ch if direction == "H2E" else pair.ce
+        a_end.name, a_end.peer.name = "a", "b"
+        sender._system_counter = case["system"] - 1
+        bodies = [hlib.Rng(case["body_seed"] + i).bytes(n) for i, n in enumerate(case["body_lens"])]
+        fns = [Fn(7, 2 * i + 1, False, b) for i, b in enumerate(bodies)]
+        progress = {}  # function -> [blocks seen, complete?]
+
+        def fault_fn(data):
+            blk = SecsIBlock.decode(data)
+            if blk is None:
+                return None
+            f = blk.header.function
+            others_open = any(v[0] > 0 and not v[1] for g, v in progress.items() if g != f)
+            st = progress.setdefault(f, [0, False])
+            if others_open and (case["which"] == "any" or (case["which"] == "later" and blk.header.block > 1) or (case["which"] == "first" and blk.header.block == 1)):
+                pos = case["offset"] % (len(data) - 1) + 1  # never the length byte
+                return data[:pos] + bytes([data[pos] ^ (1 + case["xor"] % 255)]) + data[pos + 1:]
+            st[0] += 1
+            st[1] = bool(blk.header.last_block)
+            return None
+
+        pair.world.fault_fn = fault_fn
+        results = {}
+        barrier = threading.Barrier(len(fns))
+
+        def send(i):
+            barrier.wait(2.0)
+            try:
+                results[i] = sender.send_stream_function(fns[i])
+            except Exception as exc:  # noqa: BLE001
+                results[i] = exc
+
+        threads = [threading.Thread(target=send, args=(i,), daemon=True) for i in range(len(fns))]
+        for t in threads:
+            t.start()
+        for t in threads:
+            t.join(8.0)
+        hung = [i for i, t in enumerate(threads) if t.is_alive()]
+        want_n = sum(1 for i in range(len(fns)) if results.get(i) is True)
+        limit = time.time() + 1.0
+        while time.time() < limit and len(pair.got[rkey]) < want_n:
+            time.sleep(0.003)
+        time.sleep(0.02)
+        got = list(pair.got[rkey])
+        with pair.world.lock:
+            transcript = list(pair.world.transcript)
+        fired = pair.world.fault_fired
+        damaged = None if fired is None else SecsIBlock.decode(fired[1]).header.function
+        # blocks the receiver accepted (answered with ACK), in line order
+        accepted = []
+        for i, (n, d) in enumerate(transcript):
+            if n == "a" and len(d) > 1:
+                ans = next((dd for (nn, dd) in transcript[i + 1:] if nn == "b"), None)
+                if ans == bytes([ACK]):
+                    accepted.append(SecsIBlock.decode(d))
+        small = dict(case, damaged_function=damaged, results=[repr(results.get(i)) for i in range(len(fns))],
+                     accepted=[(b.header.function, b.header.block) for b in accepted], delivered=[(m.header.function, len(m.data)) for m in got])
+        res.count(("concurrent-fault", direction, tuple(case["body_lens"]), damaged, tuple(small["accepted"])), sample=small if case.get("sample") and fired else None)
+        res.bump("concurrent_senders_with_checksum_error", "fault placed while another message was incomplete" if fired else "no such moment in this run")
+        if hung:
+            res.violate("c17-wedged", "concurrent send calls did not return", small, None, hung)
+            return fired is not None
+        for i, fn in enumerate(fns):
+            r = results.get(i)
+            mine = [m for m in got if m.header.function == fn.function]
+            if isinstance(r, Exception):
+                res.violate("c17-exception", "the send call raised", small, None, repr(r))
+            elif r is True:
+                if len(mine) != 1 or bytes(mine[0].data) != bodies[i]:
+                    res.violate("c17-not-delivered-intact", "a block of ANOTHER message arrived with a wrong checksum while this message was incomplete: this "
+                                "message's send reported success (all its blocks were ACKed) but it did not arrive exactly once, intact", small,
+                                {"function": fn.function, "len": len(bodies[i])}, [(m.header.function, len(m.data)) for m in got])
+            else:
+                if fn.function != damaged:
+                    res.violate("c17-send-failed", "the send of the undamaged message reported failure", small, True, r)
+                if mine:
+                    res.violate("c17-bad-delivered", "a message with a NAKed block was delivered", small, [], [(m.header.function, len(m.data)) for m in mine])
+        if fired is not None and results.get([f.function for f in fns].index(damaged)) is True:
+            res.violate("c17-nak-success", "the damaged message's send reported success", small, False, True)
+        if cx.drv.available and accepted:
+            line = "secsi reasm " + " ".join(show_block(b) for b in accepted)
+            impl = "ok " + ";".join(show_block_hdr(m.header) + " " + hexs(bytes(m.data)) + " n=" + str(len(m.blocks)) for m in got)
+            ans = hlib.strip_branch(cx.drv.run([line])[0]).split(" | pending=")[0]
+            res.traces_validated += 1
+            res.driver_used = True
+            if ans != impl:
+                res.disagree("concurrent senders + checksum error: messages delivered vs Model.SecsI.reassemble (C16) of the ACCEPTED blocks in line order",
+                             {"case": {k: v for k, v in small.items() if k != "results"}}, ans[:500], impl[:500])
+        return fired is not None
+    finally:
+        pair.close()
+
+
 def run_same_system(cx, case):
     """consecutive messages in ONE direction with EQUAL system bytes (the peer re-uses the system bytes of a closed transaction; with
     `send_response` the caller chooses them).  Oracle: every message whose send returned True is delivered exactly once, intact, in order."""
@@ -640,6 +749,9 @@ def main():
             if isinstance(c, dict) and c.get("part") == "concurrent":
                 for _ in range(5):
                     guarded(cx, run_concurrent, {k: v for k, v in c.items() if k not in ("line_order", "interleaved", "results")})
+            elif isinstance(c, dict) and c.get("part") == "concurrent-fault":
+                for _ in range(5):
+                    guarded(cx, run_concurrent_fault, {k: v for k, v in c.items() if k not in ("damaged_function", "results", "accepted", "delivered")})
             elif isinstance(c, dict) and c.get("part") == "same-system":
                 guarded(cx, run_same_system, {k: v for k, v in c.items() if k not in ("results", "delivered")})
             elif isinstance(c, dict) and c.get("part") == "preempted-resolve":
@@ -693,6 +805,17 @@ def main():
             seen += 1 if guarded(cx, run_concurrent, c) else 0
         if seen == 0:
             res.notes.append("concurrent senders: the blocks never interleaved on the line in this run")
+        # ... and a checksum error in a block of one of them while the other is still incomplete
+        placed = 0
+        for k in range(14 if cx.big else 6):
+            lens = [rng.choice([300, 489, 600, 733]) for _ in range(2)]
+            c = {"part": "concurrent-fault", "dir": rng.choice(["H2E", "E2H"]), "body_lens": lens, "body_seed": rng.below(2 ** 31),
+                 "system": rng.choice([17, 2 ** 32 - 1, rng.range(1, 2 ** 32 - 4)]), "chunks": rng.choice([[1000], [7], [100, 1, 1, 1]]),
+                 "pumped": bool(rng.below(2)), "which": ["later", "first", "any"][k % 3], "offset": rng.below(250), "xor": rng.below(255),
+                 "sample": placed == 0}
+            placed += 1 if guarded(cx, run_concurrent_fault, c) else 0
+        if placed == 0:
+            res.notes.append("concurrent senders with checksum error: no block could be damaged while another message was incomplete in this run")
         # short T3, the peer's answer held back beyond it
         for k, (hold, fault) in enumerate([(0.5, True), (0.5, False), (None, True), (None, False)] + ([(0.8, True), (0.3, True)] if cx.big else [])):
             c = gen_case(rng, rng.choice([0, 3, 100]))
